@@ -290,6 +290,8 @@ class ModelBase:
                 except Exception:
                     pass
             return r
+        if name == 'id' and a0 is not None:
+            return AV(ty='int', id_of=a0, deps=d)
         if name == 'enumerate':
             return AV(ty='enumerate', inner=a0, deps=d)
         if name == 'map' and len(args) >= 2 and not kwargs:
